@@ -234,8 +234,9 @@ def decide(prop, rule_names, sites, stats, tier, t0, selftest=None, extra_broken
     broken = list(extra_broken or [])
     viol, knownhits, unknown, ok = [], [], [], []
     per_rule = {}
+    import re as _re
     for r in sites:
-        pr = per_rule.setdefault(r['rule'], {'ok': 0, 'violation': 0, 'unknown': 0, 'anchors': set()})
+        pr = per_rule.setdefault(r['rule'], {'ok': 0, 'violation': 0, 'unknown': 0, 'anchors': set(), 'resolved_all_files': 0, 'elsewhere': 0})
         if r['kind'] == 'anchor':
             pr['anchors'].add(r['construct'])
             continue
@@ -243,6 +244,12 @@ def decide(prop, rule_names, sites, stats, tier, t0, selftest=None, extra_broken
             continue
         if r['kind'] == 'broken':
             broken.append('%s: %s' % (r['rule'], r['detail']))
+            continue
+        if r['kind'] in ('ok', 'violation'):
+            pr['resolved_all_files'] += 1
+        flt = rules.FILTER.get((prop, r['rule']))
+        if flt and not _re.search(flt, r['file']):
+            pr['elsewhere'] += 1  # a site of this rule that belongs to another property's code
             continue
         pr[r['kind']] += 1
         if r['kind'] == 'violation':
@@ -255,8 +262,8 @@ def decide(prop, rule_names, sites, stats, tier, t0, selftest=None, extra_broken
     # floors and anchors
     for rn in rule_names:
         mod = rules.get(rn)
-        pr = per_rule.get(rn, {'ok': 0, 'violation': 0, 'unknown': 0, 'anchors': set()})
-        resolved = pr['ok'] + pr['violation']
+        pr = per_rule.get(rn, {'ok': 0, 'violation': 0, 'unknown': 0, 'anchors': set(), 'resolved_all_files': 0})
+        resolved = pr.get('resolved_all_files', 0)
         floor = getattr(mod, 'FLOOR', 1)
         if resolved < floor:
             broken.append('%s: resolved %d instances, floor is %d (unknown=%d)' % (rn, resolved, floor, pr['unknown']))
